@@ -21,7 +21,7 @@ PID = "C08"
 MISMATCH_RE = re.compile(r'<<\s*"MISMATCH",\s*(\d+),\s*(-?\d+),\s*"([^"]*)"\s*>>', re.S)
 DEVIATION_RE = re.compile(r'<<\s*"DEVIATION",\s*(\d+),\s*(-?\d+),\s*"([^"]*)"\s*>>', re.S)
 
-FLAWS = ["Flaw_StaleNext", "Flaw_NoProposerReload", "Flaw_NoStakeReload", "Flaw_NoSyncRotate",
+FLAWS = ["Flaw_StaleNext", "Flaw_NoProposerReload", "Flaw_NoStakeReload", "Flaw_StakeReloadOnlyIfEffChanged", "Flaw_NoSyncRotate",
          "Flaw_NoPubkeyExtend", "Flaw_NoSyncLoadOnUpgrade"]
 
 
@@ -250,7 +250,11 @@ def run_check(tier, seed, replay=None):
                 "fork-one-deposits-other-rotates-first", "clone-eff-len-lt-cap", "clone-eff-len-eq-cap",
                 # new-validator deposits observed mid-epoch (before the next rotation), by amount class
                 "new-validator-amount-not-multiple-of-increment", "new-validator-amount-at-max", "new-validator-amount-above-max",
-                "new-validator-amount-below-one-increment", "topup-of-validator-deposited-in-same-epoch"]
+                "new-validator-amount-below-one-increment", "topup-of-validator-deposited-in-same-epoch",
+                # epoch boundaries by which registry fact changed ALONE
+                "active-set-changed-no-eff-change:activation", "active-set-changed-no-eff-change:exit",
+                "active-set-changed-no-eff-change:both", "active-set-changed-no-eff-change:slashed-exit",
+                "eff-changed-active-set-unchanged", "boundary-registry-unchanged"]
         missing = [k for k in need if flags[k] == 0]
         for k in ("slot", "block", "genesis"):
             if steps[k] == 0:
@@ -290,6 +294,11 @@ def run_check(tier, seed, replay=None):
             k: flags[k] for k in ("new-validator-amount-not-multiple-of-increment", "new-validator-amount-at-max",
                                   "new-validator-amount-above-max", "new-validator-amount-below-one-increment",
                                   "topup-of-validator-deposited-in-same-epoch")},
+        "epoch_boundaries_by_changed_fact": {k: flags[k] for k in (
+            "active-set-changed-no-eff-change:activation", "active-set-changed-no-eff-change:exit",
+            "active-set-changed-no-eff-change:both", "active-set-changed-no-eff-change:slashed-exit",
+            "eff-changed-active-set-unchanged", "boundary-registry-unchanged", "boundary-eff-and-active-set-changed",
+            "active-set-changed-eff-values-unchanged-but-hysteresis-condition-met")},
         "reload_points": tot["reload_points"], "reload_comparisons": tot["peer_comparisons"], "branches": tot["branches"],
         "known_deviations_enabled": deviations, "deviations_used": dict(devs_total), "known_findings_seen": dict(known),
         "scenarios_stopped_early": stopped,
